@@ -10,6 +10,7 @@ import Driver.Codec
 import Driver.Auth
 import Driver.Client
 import Driver.Frame
+import Driver.WpDBin
 
 def main (args : List String) : IO UInt32 := do
   match args with
@@ -20,5 +21,6 @@ def main (args : List String) : IO UInt32 := do
   | "auth" :: rest => Driver.Auth.run rest
   | "client" :: rest => Driver.Client.run rest
   | "frame" :: rest => Driver.Frame.run rest
+  | "wpdbin" :: rest => Driver.WpDBin.run rest
   | m :: _ => do IO.eprintln s!"nexus-driver: unknown mode {m}"; return 2
   | [] => do IO.eprintln "usage: nexus-driver <mode> [args]"; return 2
